@@ -432,6 +432,10 @@ def palette(ctx):
                 sig, what = "close-nil-chan-no-panic", "close of a nil channel does not panic ($close has no nil check)"
             elif name == "index-string":
                 sig, what = "string-index-out-of-range-no-panic", "s[i] with i outside [0,len(s)) does not panic (charCodeAt without range check)"
+            elif name == "compare-array-of-blank-struct":
+                sig, what = ("uncomparable-array-of-named-struct-compares-no-panic",
+                             "== on interface values holding an array whose element type is a NAMED uncomparable struct does not panic: $arrayType copies "
+                             "elem.comparable when the array type is created, before the struct type's init() has cleared its comparable flag")
             elif name == "nilptr-array-index":
                 sig, what = "nil-array-pointer-index-read-no-panic", "p[i] with p a nil *[N]T yields undefined instead of a nil-dereference panic"
             else:
@@ -521,6 +525,12 @@ SEEDS = [
     [[("panic", ("int", 7))]],
     [[("deferclo", [("panic", ("int", 2))]), ("goexit",)]],                                                                   # panic during Goexit, unrecovered (finding)
     [[("deferclo", [("recover",)]), ("deferclo", [("panic", ("int", 2))]), ("goexit",), ("trace", 9)]],                      # ... recovered: Goexit resumes
+    # unnamed results returned from a plain local that deferred closures modify, with and without a really suspending deferred call
+    [[("call", 1), ("tracex",)], [("setr", 11), ("deferclo", [("block",), ("setr", 12)]), ("retr",)]],
+    [[("call", 1), ("tracex",)], [("setr", 11), ("deferclo", [("setr", 12)]), ("retr",)]],
+    [[("call", 1), ("tracex",)], [("deferclo", [("recover",), ("setr", 13)]), ("setr", 11), ("panic", ("int", 1)), ("retr",)]],
+    [[("call", 1), ("tracex",)], [("setr", 11), ("deferclo", [("setr", 12), ("block",), ("setr", 14)]), ("block",), ("retr",), ("trace", 1), ("retr",)]],
+    [[("defer", 1), ("setr", 15), ("deferclo", [("block",), ("setr", 16), ("tracex",)]), ("retr",)], [("block",), ("tracex",)]],
     # deferred calls that really suspend the goroutine: while panicking, on normal return, during Goexit, nested
     [[("trace", 1), ("deferclo", [("recover",), ("trace", 2)]), ("deferclo", [("block",), ("trace", 3)]), ("trace", 4), ("panic", ("int", 1)), ("trace", 5)]],
     [[("deferclo", [("block",), ("recover",), ("setr", 12)]), ("trace", 1), ("block",), ("trace", 2), ("panic", ("rt", 0))]],
